@@ -4,7 +4,7 @@
    the Chebyshev nodes) is recomputed independently by the harness with float oracles (erf): no
    theorem covers it (see DESIGN.md). *)
 From Coq Require Import ZArith QArith Qreals List Reals Bool.
-From PyqspV Require Import Base.Ops Model.QInst Model.Checkers Theory.SupT Theory.SupMonoT Theory.AccT Theory.AccMonoT Theory.AccHiT.
+From PyqspV Require Import Base.Ops Model.QInst Model.Checkers Theory.SupT Theory.SupMonoT Theory.AccT Theory.AccMonoT Theory.AccHiT Theory.FPProbT Theory.ChebDblT Theory.DctT.
 Import ListNotations.
 Open Scope R_scope.
 
@@ -60,3 +60,19 @@ Print Assumptions C16_inverse_accuracy_high_order.
 Theorem C16_taylor_shift (p : list R) x0 d : pevalRl (pshift_at SupMonoT.OpsRR p x0) d = pevalRl p (x0 + d).
 Proof. exact (pshift_at_sound p x0 d). Qed.
 Print Assumptions C16_taylor_shift.
+
+(* erf family: the least-squares Chebyshev fit on the N first-kind Chebyshev nodes, in closed form *)
+Theorem C16_discrete_orthogonality N k i : (k < N)%nat -> (i < N)%nat ->
+  gram N k i = if Nat.eqb k i then (if Nat.eqb k 0 then INR N else INR N / 2) else 0.
+Proof. exact (discrete_orthogonality N k i). Qed.
+Print Assumptions C16_discrete_orthogonality.
+
+Theorem C16_least_squares_closed_form N n (f : nat -> R) (d : nat -> R) : (n < N)%nat ->
+  (forall i, (i <= n)%nat -> sumf (fun j => resid N n f (dct_coef N f) j * Tn i (node N j)) N = 0) /\
+  sumf (fun j => resid N n f (dct_coef N f) j * resid N n f (dct_coef N f) j) N <= sumf (fun j => resid N n f d j * resid N n f d j) N.
+Proof. intros H. split; [intros i Hi; exact (dct_normal_equations N n f H i Hi) | exact (dct_is_least_squares N n f H d)]. Qed.
+Print Assumptions C16_least_squares_closed_form.
+
+Theorem C16_series_is_sum_of_terms c x : cheb_series c x = sumf (fun k => nth k c 0 * Tn k x) (length c).
+Proof. exact (cheb_series_terms c x). Qed.
+Print Assumptions C16_series_is_sum_of_terms.
